@@ -261,7 +261,7 @@ PROPS["C15"] = {
         K("report block inverse + sign extension", "c15_report_block_inverse", "quick", "proof", ["build_report_block", "parse_report_block"],
           "parse(build(b)) == b for representable loss, clamped otherwise; for EVERY 24 bytes parse sign-extends correctly and build(parse(raw)) == raw", module=RM),
         K("REMB bitrate round trip (every u64)", "c15_remb_bitrate_roundtrip", "quick", "proof", ["build_remb_body", "parse_remb_body"],
-          "exponent <= 46 < 64, mantissa < 2^18, normalised; decoded == input with the low exp bits cleared; exact below 2^18 (exponent loop fully unwound, unwinding assertion on)", module=RM),
+          "6-bit exponent, mantissa < 2^18; decoded == input with the low exp bits cleared (within one unit of the last place); exact below 2^18 (exponent loop fully unwound, unwinding assertion on)", module=RM),
         K("REMB ssrc list (2)", "c15_remb_ssrc_list_2", "quick", "bounded", ["build_remb_body", "parse_remb_body"],
           "parse(build(r)) == r", bound="2 SSRC entries", module=RM),
         K("SR body round trip (0 blocks)", "c15_sender_report_roundtrip_0", "quick", "proof", ["build_sender_report_body", "parse_sender_report"],
@@ -307,12 +307,12 @@ PROPS["C15"] = {
         K("get_extension two-byte form (8 B)", "c15_get_extension_twobyte_8", "quick", "bounded", ["RtpHeader::get_extension"],
           "equals a reference walk written from RFC 8285 4.3", bound="8 symbolic bytes", module=RM, timeout=600),
         K("set_extension then get_extension (no previous extension)", "c15_set_get_extension_fresh", "quick", "bounded", ["RtpHeader::set_extension", "RtpHeader::get_extension", "RtpHeader::validate"],
-          "one-byte-header block 0xBEDE created: (id<<4|len-1) || value, zero-padded to 32 bits; get(id) returns the value; header still valid",
+          "a 0xBEDE block is created, 32-bit aligned; get(id) returns the value; header still valid (element order / padding placement left free)",
           bound="header without extension, 3-byte value, every id 1..14", module=RM, timeout=900),
         K("set_extension rejects invalid id / length", "c15_set_extension_rejects_bad_args", "quick", "bounded", ["RtpHeader::set_extension"],
           "id 0 or >= 15, empty or > 16-byte value => Err, header untouched", bound="header without extension", module=RM, timeout=600),
         K("set_extension next to / over existing elements (literal framing)", "c15_set_extension_existing_literal", "quick", "bounded", ["RtpHeader::set_extension", "RtpHeader::get_extension"],
-          "adding id 2 keeps ids 1 and 3 byte for byte and re-pads; replacing id 1 by a longer value keeps the others; get returns each value; unknown id is None",
+          "adding id 2 leaves ids 1 and 3 reading back unchanged; replacing id 1 by a longer value keeps the others; block stays aligned; unknown id is None",
           bound="received block 10 v 30 w (framing octets literal, values symbolic), 2-byte value", module=RM, timeout=900),
         K("RtpPacket::parse_bytes∘marshal (3 B payload)", "c15_packet_marshal_parse_p3", "quick", "bounded", ["RtpPacket::marshal", "RtpPacket::parse_bytes", "RtpHeader::parse", "RtpHeader::write_to"],
           "parsing what marshal emitted returns the same header fields, payload and padding count", bound="12-byte header (no CSRC / extension), 3 payload bytes, parsed from a static Bytes", module=RM),
@@ -362,7 +362,7 @@ PROPS["C16"] = {
         K("decode(encode) Binding request + USE-CANDIDATE", "c16_decode_of_encode_use_candidate", "quick", "bounded", ["decode_stun_message", "encode_stun_message"],
           "the flag attribute survives the round trip", bound="one zero-length attribute, no MI/FP", module=SM, timeout=900),
         K("priority_for contract (RFC 8445 5.1.2.1)", "c16_priority_for_contract", "quick", "proof", ["IceCandidate::priority_for"],
-          "in-place kani::requires(component >= 1) + kani::ensures: 2^24*type_pref + 2^8*65535 + (256-min(component,256)), <= 0x7EFFFFFF, for every type and valid component id", module=IM),
+          "in-place kani::requires(component >= 1) + kani::ensures: three-field layout 2^24*type_pref (<= 126) + 2^8*local_pref + (256-min(component,256)), <= 0x7EFFFFFF, for every type and valid component id", module=IM),
         K("priority ordering", "c16_priority_ordering", "quick", "proof", ["IceCandidate::priority_for"], "host > prflx > srflx > relay > 0; lower component id wins", module=IM),
         K("priority_for_tcp (RFC 6544 4.1)", "c16_priority_for_tcp_spec", "quick", "proof", ["IceCandidate::priority_for_tcp"],
           "same formula with local preference passive > active > so; never above the UDP priority", module=IM),
